@@ -3,9 +3,9 @@ import re
 CONFIG = dict(
     bin="c15",
     drv="drv_c15",
-    lean_modules=["MahfModel.Props.C15", "MahfModel.Props.C15Files"],
+    lean_modules=["MahfModel.Props.C15", "MahfModel.Props.C15Files", "MahfModel.Props.C15Runs"],
     namespaces=["MahfModel.Props.C15"],
-    shrink_lists=["rules", "tree", "loop", "scope", "ifx", "calls", "pre", "probs"],
+    shrink_lists=["rules", "tree", "loop", "scope", "ifx", "calls", "pre", "probs", "runs", "run"],
     level="proof",
     rule=("(1) logger: 27 log configurations (no LogConfig / empty / always / never / every-n incl. n = 0 / Not / scripted triggers incl. Err / "
           "ChangeOf triggers (need Logger::init), with_many, clear, duplicate entry names, sources missing; rule lists of even length are "
@@ -37,9 +37,18 @@ CONFIG = dict(
           "names the experiment writes to (and under names it does not), a failing run in the middle, and random sequences whose next "
           "call changes exactly one number of the previous configuration, the rules, or everything (110 quick / 2500 thorough); after "
           "every call configuration.ron is read back as a tree and every <problem>_<run>.cbor of this call is decoded in full. "
+          "(6) logger-runs / logger-rerun-after-err: SEQUENCES of 1..3 Configuration::run calls on ONE caller-owned State (prepared as "
+          "optimize_with prepares it, rules registered once; every run has its own configuration of the logger program language), "
+          "continued whatever the earlier runs returned: 12 rule sets (no LogConfig, no failing trigger, scripted flaky triggers that "
+          "return Err at their 1st..5th evaluation, shipped triggers that fail while their source is missing: ChangeOf over a missing X, "
+          "EveryN::iterations before any Loop inserted the counter) x 10 run sequences (the same configuration 1 / 2 / 3 times, a "
+          "corrected configuration after a failing one, a loop-free run after a run with a loop (the counter of the earlier run stays), "
+          "empty runs, scopes) x 4 iteration counts, plus random sequences with a failing script in every second rule (900 quick / "
+          "30000 thorough); the outcome (Ok / Err) of EVERY run and the log the state holds at the end (raw + both exports decoded in "
+          "full) are compared; site logger-rerun-after-err = at least one run follows a failed run (about a third of the cases). "
           "Non-trivial = a logger case with at least one rule and a Logger in the tree, or any template/cfg/exp case; distinct = "
           "distinct input."),
-    nontrivial=lambda inp: (inp.startswith("(lg (rules (") and "(log)" in inp) or inp.startswith(("(tl", "(cfg", "(fl", "(exp")),
+    nontrivial=lambda inp: (inp.startswith(("(lg (rules (", "(lgs (rules (")) and "(log)" in inp) or inp.startswith(("(tl", "(cfg", "(fl", "(exp")),
     trusted_base=[
         "serde_json / ciborium / ron back-ends are exercised (files written by the real code are decoded by the harness), not modelled",
         "HashMap iteration order of the per-step export maps is represented by 'any permutation' (export_order_independent)",
@@ -99,7 +108,20 @@ CONFIG.update(
                 "(reused_folder_config_is_replaced with cfg_bytes_injective_partial / prog_export_injective). Tied to /repo by the pre-existing-"
                 "path cases of every export site and by real par_experiment sequences (K: tree read back from configuration.ron and "
                 "decoded log files equal the model's folder after every call; O: the call's result, configuration.ron denotes THIS "
-                "call's configuration (names, parameter values, nesting), every log file of this call decodes in full to the specified log)."),
+                "call's configuration (names, parameter values, nesting), every log file of this call decodes in full to the specified log). "
+                "Runs on one state (Props/C15Runs, Model/LogC15Runs: an interpreter that returns the state a FAILED execution leaves "
+                "behind — State::holding puts the LogConfig back whatever the closure returned, Scope restores the parent registry, "
+                "Configuration::run = init (Loop: Iterations(0); Logger: every trigger re-initialised) + execute on the given state): "
+                "after ANY sequence of runs on any state — completed, failed with Err at any point — the log has grown by exactly the "
+                "specified steps of the logger executions that completed meanwhile, in order (runs_log_is_concat, "
+                "runs_log_from_fresh_state), no execution changes what the state is configured to log (log_config_survives_any_run, "
+                "log_config_survives_any_history), a failed logger execution appends and records nothing (failed_logger_execution_"
+                "changes_nothing), a logger execution on any state holding a LogConfig appends exactly the specified step "
+                "(logger_execution_on_any_state), the single-run interpreter is this one with the failed state forgotten "
+                "(single_run_refines), and a holding that drops the value on Err is excluded (dropping_config_on_error_violates). "
+                "Tied to /repo by the logger-runs* cases (K: outcomes of all runs and final log equal the model's; O: every run "
+                "reports the outcome its triggers prescribe and the decoded log is the specified steps of all completed logger "
+                "executions of all runs; classes run-outcome, steps-missing, wrong-value)."),
     level_note=("proof, partial: the theorems are about the model. Configuration export: the leaf level (type names, parameter values, "
                 "PhantomData fields) and the tree shape are modelled and tied per generated tree by reading the real export back; the "
                 "per-component Serialize derives are NOT modelled in Lean — the expected shape of each component kind is part of the "
@@ -118,5 +140,9 @@ CONFIG.update(
                 "experiment that THIS call does not write (runs >= runs, other problems, logs when log = false) stay in the folder "
                 "(experiment_other_files_untouched); the property does not speak about them, they are reported ('other') and not compared. "
                 "When a run fails, which other runs had already written their logs is not determined; only the Err is compared (the harness still "
-                "reports the configuration.ron it finds)."),
+                "reports the configuration.ron it finds). Runs on one state: a logger execution aborted by a failing trigger is required "
+                "to append nothing (as the code does; the clause 'a trigger fires => one step' is read for executions that complete); "
+                "after a PANIC inside a run nothing is specified (the held LogConfig is lost by unwinding), sequences end there; "
+                "State::holding itself is modelled only through its effect on the LogConfig (its registry mechanics are C01's subject); "
+                "ChangeOf triggers: re-initialised by every run whose configuration reaches a Logger, same one-trigger / no-Scope domain."),
 )
